@@ -23,6 +23,9 @@ THEOREMS = [
     "Ebv.C08.prog_store_eq_pySet", "Ebv.C08.prog_load_eq_unpack", "Ebv.C08.packM_spec", "Ebv.C08.member_load_eq_unpack",
     "Ebv.C08.ebpf_init_full_proved", "Ebv.C08.uninitialised_keyError",
     "Ebv.C08.collect_disjoint_old_refuted", "Ebv.C08.ebpf_init_old_refuted",
+    "Ebv.C08.writeAll_get", "Ebv.C08.collectInto_get", "Ebv.C08.collectAll_get", "Ebv.C08.collect_history_free", "Ebv.C08.collect_frame",
+    "Ebv.C08.positionOf_prog", "Ebv.C08.runNews_frame", "Ebv.C08.history_layout", "Ebv.C08.freshPos_single", "Ebv.C08.create_dicts",
+    "Ebv.C08.pySet_dicts",
 ]
 TRUSTED = ["hand-written model Ebv.Collect of ArrayMap.collect / ArrayGlobalVarDesc / PerCPUVar / EBPF.__init__ map discovery, "
            "tied by exact correspondence (positions, map sizes, map bytes, values, error kinds) on generated declaration sets",
@@ -35,6 +38,9 @@ ASSUMPTIONS = ["formats: x, [<>!=@]?[count]c, and multi-letter formats ([count]c
                "a program with a map access outside the map value is rejected as a whole (kernel verifier); the interpreter's fault stands for it",
                "per-CPU lookups return one block of round_up(value_size, 8) bytes per possible CPU (emulated kernel)",
                "a map all of whose variables have size 0 ('0B') is never created; such declaration sets are outside the property",
+               "histories: the per-CPU variables of earlier instances are read again after the later instances were created, against an emulated "
+               "kernel side of the instance's own value size (blocks filled with cpu + 1; oracle only, no model line); this is what the defect "
+               "C08-percpu-size-shared (size kept on the map object shared by all instances of a class; repaired by /repo 4aac77c) breaks",
                "x values are dyadic decimals, for which float*FIXED_BASE is an exact integer, so the setter's rounding plays no role "
                "(the float -> fixed-point conversion itself belongs to C02)"]
 RULE = ("cases = 1-12 globalVar declarations spread over a program class with 0-3 bases (chain or fan), 0-3 subprogram instances of 1-2 "
@@ -43,7 +49,12 @@ RULE = ("cases = 1-12 globalVar declarations spread over a program class with 0-
         "formats incl. multi-letter ones with native alignment gaps (BI, HQ, BHI, bq, IB, QH, 3BH, random groups); "
         "kinds: layout (Python set/get of distinct random values), prog (real program stores constants / copies variables / stores into and "
         "copies out of single members at their natural offsets, run in interp), "
-        "percpu (emulated possible-CPU file, one program run per CPU); non-trivial = at least two variables of different sizes")
+        "percpu (emulated possible-CPU file, one program run per CPU); 30% of the cases are the LAST object of a history: 1-2 further "
+        "instances of the main class were created before it in the same process from the same classes, with other subprogram instances, "
+        "counts and orders (half of them with as many subprograms as the final object), some of the subprogram instances the very objects "
+        "the final program gets too; each earlier object is judged right after its creation (ranges disjoint inside its own map) and written "
+        "from Python, and at the end every variable an earlier object still owns must read back what was written; "
+        "non-trivial = at least two variables of different sizes")
 
 SINGLES = "bBhHiIqQ"
 MAPID = {"m": 0, "pc": 1}
@@ -247,6 +258,61 @@ def fmt_of(case, key):
     return resolved(case, instances(case)[key[0]])[key[1]][1]
 
 
+# ---- earlier objects of the same process ------------------------------------------------------------------
+# `case["pre"]` lists objects created (and written) BEFORE the object the case is about, from the same classes:
+# further instances of the main class with other subprograms, in another order, some of the subprogram instances
+# the same objects the final program gets too.  Instance numbers: the final main is 0, earlier mains 200, 201, ...
+
+def pre_instances(case, j):
+    p = case["pre"][j]
+    inst = {p["id"]: p["main"]}
+    for c, i in p["subs"]:
+        inst[i] = c
+    return inst
+
+
+def pre_keys(case, j, mapname="m"):
+    return [(i, v) for i, c in pre_instances(case, j).items() for v, (m, f) in resolved(case, c).items() if m == mapname]
+
+
+def pre_fmt(case, j, key):
+    return resolved(case, pre_instances(case, j)[key[0]])[key[1]][1]
+
+
+def pre_alive(case, j):
+    """the variables of earlier object j whose instance was not handed to a later object: still this object's"""
+    later = {i for p in case["pre"][j + 1:] for c, i in p["subs"]} | {i for c, i in case["subs"]}
+    return [k for k in pre_keys(case, j) if k[0] not in later]
+
+
+def add_pre(rng, case):
+    subclasses = [k for k, v in case["classes"] if v["root"] == "S"]
+    pool = {i: c for c, i in case["subs"]}
+    case["pre"] = []
+    for j in range(rng.choice([1, 1, 2])):
+        subs = []
+        want = rng.choice([0, 1, 2, 3]) if rng.random() < 0.5 else len(dict.fromkeys(i for c, i in case["subs"]))
+        for _ in range(want if subclasses else 0):
+            if pool and rng.random() < 0.5:
+                i = rng.choice(sorted(pool))
+            else:
+                i = max([9] + list(pool)) + 1
+                pool[i] = rng.choice(subclasses)
+            if all(x[1] != i for x in subs):
+                subs.append([pool[i], i])
+        case["pre"].append({"main": case["main"], "id": 200 + len(case["pre"]), "subs": subs})
+        if all(csize(pre_fmt(case, len(case["pre"]) - 1, k)) == 0 for k in pre_keys(case, len(case["pre"]) - 1)):
+            case["pre"].pop()          # a map of size 0 is never created: outside the property (see ASSUMPTIONS)
+    if not case["pre"]:
+        del case["pre"]
+        return case
+    for j, p in enumerate(case["pre"]):
+        keys = pre_keys(case, j)
+        rng.shuffle(keys)
+        p["sets"] = [[i, v, rand_values(rng, pre_fmt(case, j, (i, v)))] for i, v in keys]
+    return case
+
+
 def shape(case):
     """label for the distribution table: the declaration shapes that were defects before commit 6422374"""
     specs = dict(case["classes"])
@@ -311,6 +377,8 @@ def complete(rng, case):
         case["cpufile"] = cpu_file(rng, ncpu)
         case["rounds"] = [[[i, v, rand_values(rng, fmt_of(case, (i, v)))] for i, v, _, _ in pairs] for _ in range(ncpu)]
         case["seed"] = rng.randrange(2 ** 32)
+    if rng.random() < 0.3 and "m" in dict(case["classes"])[case["main"]]["maps"]:
+        add_pre(rng, case)
     return case
 
 
@@ -428,27 +496,65 @@ class Built:
             bases = tuple(self.classes[b] for b in spec["bases"]) or (roots[spec["root"]],)
             self.classes[cname] = type(cname, bases, ns)
         self.objs = {}
-        for c, i in case["subs"]:
-            if i not in self.objs:
-                self.objs[i] = self.classes[c]()
         self.buffers = []
         self.raw = {}
-        with fsim.fake_maps() as created:
-            am.mmap = lambda fd, size: self._mmap(size)      # the real mmap type: fixed size, like the kernel's
-            saved_open = am.__dict__.get("open")
-            if cpu_text is not None:
-                am.open = lambda path, *a, **k: self._open(path, cpu_text)
-            try:
-                self.main = self.classes[case["main"]](ProgType.XDP, "GPL",
-                                                       subprograms=[self.objs[i] for c, i in case["subs"]])
-            finally:
-                if saved_open is None:
-                    am.__dict__.pop("open", None)
-                else:
-                    am.open = saved_open
+        self.pre = []
+
+        def instantiate(cname, subs):
+            for c, i in subs:
+                if i not in self.objs:
+                    self.objs[i] = self.classes[c]()
+            with fsim.fake_maps() as created:
+                am.mmap = lambda fd, size: self._mmap(size)      # the real mmap type: fixed size, like the kernel's
+                saved_open = am.__dict__.get("open")
+                if cpu_text is not None:
+                    am.open = lambda path, *a, **k: self._open(path, cpu_text)
+                try:
+                    return self.classes[cname](ProgType.XDP, "GPL", subprograms=[self.objs[i] for c, i in subs]), created
+                finally:
+                    if saved_open is None:
+                        am.__dict__.pop("open", None)
+                    else:
+                        am.open = saved_open
+        for j, p in enumerate(case.get("pre", [])):      # the earlier objects: created, looked at, written from Python
+            main, made = instantiate(p["main"], p["subs"])
+            self.objs[p["id"]] = main
+            main.loaded = True
+            buf = main.__dict__.get("m")
+            rec = {"size": len(buf) if isinstance(buf, mmap.mmap) else None,
+                   "sizes": {mn: getattr(self.maps[mn], "size", None) for mn in self.maps},
+                   "mapmro": self.map_attrs(main), "progs": [{"id": i, "mro": self.mro_decls(self.objs[i])}
+                                                             for i in [p["id"]] + [i for c, i in p["subs"]]],
+                   "ranges": [(self.objs[i].__dict__.get(v), csize(pre_fmt(case, j, (i, v))), (i, v)) for i, v in pre_keys(case, j)]}
+            rec["main"] = main
+            rec["pc_size"] = next((a[2] for fd, a in made if a[0].name == "PERCPU_ARRAY"), None)   # value size of ITS kernel map
+            rec["sets"] = []
+            for i, v, vals in p["sets"]:
+                try:
+                    setattr(self.objs[i], v, to_py(pre_fmt(case, j, (i, v)), vals))
+                    rec["sets"].append("ok")
+                except Exception as e:
+                    rec["sets"].append(exc_name(e))
+            self.pre.append(rec)
+        self.opened = []      # (what the creation of the final object opens)
+        self.main, created = instantiate(case["main"], case["subs"])
         self.objs[0] = self.main
         self.created = created
         self.opened = getattr(self, "opened", [])
+
+    def pre_reads(self):
+        """every variable the earlier objects still own, read now: (key, expected values, what Python gets)"""
+        out = []
+        for j, p in enumerate(self.case.get("pre", [])):
+            exp = {(i, v): vals for i, v, vals in p["sets"]}
+            for k in pre_alive(self.case, j):
+                f = pre_fmt(self.case, j, k)
+                try:
+                    raw = getattr(self.objs[k[0]], k[1])
+                    out.append((k, f, exp[k], raw, show_vals(from_py(f, raw))))
+                except Exception as e:
+                    out.append((k, f, exp[k], exc_name(e), exc_name(e)))
+        return out
 
     def _mmap(self, size):
         b = mmap.mmap(-1, size)
@@ -466,16 +572,58 @@ class Built:
             except BufferError:
                 pass
 
+    def pre_percpu(self, ncpu):
+        """the per-CPU variables of the earlier objects, read now (after every later object was created): the kernel side of
+        object j holds, for CPU k, a block of ITS value size filled with the byte k + 1 - so what a variable of CPU k must read
+        is known without knowing where it lies.  [(object, key, cpu, got, want)], and the buffer sizes asked for"""
+        import ebpfcat.arraymap as am
+        out, asked_all = [], []
+        for j, r in enumerate(self.pre):
+            reader = r["main"].__dict__.get("pc")
+            if r["pc_size"] is None or reader is None:
+                continue
+            stride = (r["pc_size"] + 7) // 8 * 8
+            kernel = b"".join(bytes([k + 1]) * stride for k in range(ncpu))
+            asked = []
+
+            def lookup_elem(fd, key, sz):
+                asked.append(sz)
+                return bytearray(kernel[:sz].ljust(sz, b"\0"))
+            saved = am.lookup_elem
+            am.lookup_elem = lookup_elem
+            try:
+                reader.read()
+            except Exception as e:
+                out.append((j, None, None, exc_name(e), "read() works"))
+                continue
+            finally:
+                am.lookup_elem = saved
+            asked_all.append((j, asked, len(kernel)))
+            later = {i for p in self.case["pre"][j + 1:] for c, i in p["subs"]} | {i for c, i in self.case["subs"]}
+            for key in pre_keys(self.case, j, "pc"):
+                if key[0] in later:
+                    continue
+                f = pre_fmt(self.case, j, key)
+                for k in range(ncpu):
+                    want = to_py(f, list(struct.unpack("q" if f == "x" else f, bytes([k + 1]) * csize(f)))) if f != "x" else \
+                        struct.unpack("q", bytes([k + 1]) * 8)[0] / fixed_base()
+                    try:
+                        got = getattr(self.objs[key[0]], key[1])[k]
+                    except Exception as e:
+                        got = exc_name(e)
+                    out.append((j, key, k, got, want))
+        return out, asked_all
+
     def mro_decls(self, obj):
         """the instance's real MRO with the case's declarations per class (model input)"""
         specs = dict(self.case["classes"])
         return [[[vid(v), MAPID[m], f] for v, m, f in specs[c.__name__]["vars"]] if c.__name__ in specs and
                  self.classes.get(c.__name__) is c else [] for c in type(obj).__mro__]
 
-    def map_attrs(self):
+    def map_attrs(self, main=None):
         specs = dict(self.case["classes"])
         return [[[MAPID[m], MAPID[m]] for m in specs[c.__name__]["maps"]] if self.classes.get(c.__name__) is c else []
-                for c in type(self.main).__mro__]
+                for c in type(main or self.main).__mro__]
 
     def buffer(self, mapname):
         return self.main.__dict__.get(mapname)
@@ -634,6 +782,8 @@ def _observe(case):
                 pc_line = f"{size}x{obs['cpu_no']}:" + " ".join(got[(q[0], 'p' + str(q[1] - 100), q[2])] for q in qs)
                 model_pc = {"map": 1, "cpus": ncpu, "data": data.hex(), "queries": qs}
             obs["percpu"] = got
+            if b.pre:
+                obs["pre_percpu"] = b.pre_percpu(ncpu)
         for k in keys:
             obs["reads"][k] = b.py_get(*k)
         obs["raw"] = dict(b.raw)
@@ -664,6 +814,18 @@ def _observe(case):
             mi["progcheck"] = [["copy", si, vid(sv), di, vid(dp)] for si, sv, di, dp in case["pairs"]]
         if model_pc is not None:
             mi["percpu"] = model_pc
+        if b.pre:
+            prs = b.pre_reads()
+            obs["pre"], obs["prereads"] = b.pre, prs
+            line += (" pre=" + " ; ".join(
+                "maps=" + ",".join(f"{MAPID[mn]}:{r['sizes'][mn]}" for mn in decl_maps if r["sizes"][mn] is not None)
+                + " pos=" + " ".join(f"{k[0]}.{vid(k[1])}@{'-' if p_ is None else p_}" for p_, s_, k in r["ranges"])
+                + " ops=" + ",".join(r["sets"]) for r in b.pre)
+                + " prereads=" + " ".join(x[4] for x in prs))
+            mi["pre"] = [{"main": p["id"], "progs": r["progs"], "mapmro": r["mapmro"],
+                          "sets": [[i, vid(v), vals] for i, v, vals in p["sets"]],
+                          "reads": [[k[0], vid(k[1])] for p_, s_, k in r["ranges"]]} for p, r in zip(case["pre"], b.pre)]
+            mi["prereads"] = [[x[0][0], vid(x[0][1])] for x in prs]
         return line, mi, obs
     finally:
         b.close()
@@ -676,6 +838,18 @@ def oracle(ctx, case, obs):
     if not ctx.require("build" not in obs, "declaring the variables / instantiating the program raised: no variable has bytes of its own",
                        case, obs.get("build"), cls):
         return
+    for j, r in enumerate(obs.get("pre", [])):      # every earlier object, as it was right after its creation
+        rs, sz = r["ranges"], r["size"]
+        bad = next((f"{k} at {p}+{s} in a map of {sz}" for p, s, k in rs if p is None or sz is None or p + s > sz), None)
+        if bad is None:
+            bad = next((f"{a[2]} [{a[0]},{a[0] + a[1]}) overlaps {c[2]} [{c[0]},{c[0] + c[1]})"
+                        for n, a in enumerate(rs) for c in rs[n + 1:] if not (a[0] + a[1] <= c[0] or c[0] + c[1] <= a[0])), None)
+        if not ctx.require(bad is None, f"variable ranges of object {j} of the process overlap / leave the map value / have no position",
+                           case, bad, cls):
+            return
+        if not ctx.require(all(x == "ok" for x in r["sets"]), f"Python-side assignment on object {j} of the process raised", case,
+                           r["sets"], cls):
+            return
     for mn, rs in obs["ranges"].items():
         sz = obs["sizes"].get(mn)
         bad = next((f"{k} at {p}+{s} in a map of {sz}" for p, s, k in rs
@@ -714,6 +888,23 @@ def oracle(ctx, case, obs):
         if not ctx.require(type(got) is type(want) and got == want, "variable reads back differently", case,
                            f"{k}: wrote {want!r} read {got!r}", cls):
             return
+    for k, f, vals, raw, shown in obs.get("prereads", []):      # what was written to an earlier object is still there
+        want = to_py(f, vals)
+        if not ctx.require(type(raw) is type(want) and raw == want,
+                           "a variable of an earlier object of the process reads back differently after later objects were created", case,
+                           f"{k}: wrote {want!r} read {raw!r}", cls):
+            return
+    if "pre_percpu" in obs:      # the per-CPU variables of the earlier objects, read after the later ones were created
+        reads, asked = obs["pre_percpu"]
+        for j, a, kb in asked:
+            if not ctx.require(a and min(a) >= kb, f"lookup buffer smaller than what the kernel copies for the per-CPU map of object {j} of the process",
+                               case, f"asked={a} kernel={kb}", cls):
+                return
+        for j, key, k, got, want in reads:
+            if not ctx.require(type(got) is type(want) and got == want,
+                               f"per-CPU variable of object {j} of the process does not read CPU {k}'s value after later objects were created",
+                               case, f"{key} cpu {k}: read {got!r}, that CPU's block holds {want!r}", cls):
+                return
     if case["kind"] == "percpu" and obs["percpu"]:
         n = count_cpus(case["cpufile"])
         ok = ctx.require(obs["cpu_no"] == n and obs.get("percpu_len") == n and obs["opened"] == ["/sys/devices/system/cpu/possible"],
@@ -768,6 +959,8 @@ def run(ctx):
             case = todo.pop(0) if todo else complete(ctx.rng, gen(ctx.rng, kind))
             line, mi, obs = observe(case)
             ctx.case(case, nontrivial=nontrivial(case), kind=kind + (":" + shape(case) if shape(case) else ""))
+            if case.get("pre"):
+                ctx.stats["after-earlier-objects"] += 1
             oracle(ctx, case, obs)
             if mi is not None:      # (a declaration set the real code refused is an oracle failure; the model has no line for it)
                 cases.append((case, mi)); lines.append(line)
@@ -777,10 +970,57 @@ def run(ctx):
             ctx.agree("collect/set/get/program/per-CPU", c, i, m)
 
 
+def percpu_two_instances(ctx, case):
+    """Witness of the finding C08-percpu-size-shared (not generated by `run`): two live instances of one program class
+    with a per-CPU map whose sizes differ (other subprograms); the kernel side of the FIRST instance is emulated with
+    its own value size, then its per-CPU variable is read from Python after the second instance was created."""
+    import ebpfcat.arraymap as am
+    from ebpfcat.arraymap import PerCPUArrayMap
+    from ebpfcat.ebpf import EBPF, SubProgram
+    from ebpfcat.bpf import ProgType
+    pc = PerCPUArrayMap()
+    Sub = type("Sub", (SubProgram,), {f"s{k}": pc.globalVar(f) for k, f in enumerate(case["sub"])})
+    P = type("P", (EBPF,), {"pc": pc, "a": pc.globalVar(case["fmt"])})
+    ncpu = count_cpus(case["cpufile"])
+    saved = (am.__dict__.get("open"), am.lookup_elem)
+    am.open = lambda path, *a, **k: io.StringIO(case["cpufile"] + "\n")
+    try:
+        with fsim.fake_maps() as created:
+            p1 = P(ProgType.XDP, "GPL", subprograms=[Sub()])
+            size1 = created[-1][1][2]                   # the value size the first instance's kernel map was created with
+            p2 = P(ProgType.XDP, "GPL", subprograms=[])
+        stride = (size1 + 7) // 8 * 8
+        kernel = bytes((7 * i + 1) % 256 for i in range(stride * ncpu))
+        asked = []
+
+        def lookup_elem(fd, key, sz):
+            asked.append(sz)
+            return bytearray(kernel[:sz].ljust(sz, b"\0"))
+        am.lookup_elem = lookup_elem
+        p1.loaded = True
+        p1.pc.read()
+        pos, n = p1.__dict__["a"], csize(case["fmt"])
+        bad = [(k, p1.a[k], struct.unpack_from(case["fmt"], kernel, k * stride + pos)[0]) for k in range(ncpu)]
+        bad = [b for b in bad if b[1] != b[2]]
+    finally:
+        am.lookup_elem = saved[1]
+        if saved[0] is None:
+            am.__dict__.pop("open", None)
+        else:
+            am.open = saved[0]
+    ctx.require(asked and min(asked) >= len(kernel), "lookup buffer smaller than what the kernel copies for the first instance's per-CPU map",
+                case, f"asked={asked} kernel={len(kernel)} (value size {size1}, the class's map object now says {pc.size})", "percpu-size-shared")
+    ctx.require(not bad, "per-CPU value of the first instance differs from what that CPU holds", case,
+                "; ".join(f"cpu {k}: read {g:#x}, the kernel holds {w:#x}" for k, g, w in bad), "percpu-size-shared")
+    return {"size_first": size1, "size_on_class": pc.size, "asked": asked}
+
+
 def replay(ctx, case):
     if case.get("kind") == "cpulist":
         unit_possible_cpus(ctx)
         return {}
+    if case.get("kind") == "percpu-two-instances":
+        return percpu_two_instances(ctx, case)
     line, mi, obs = observe(case)
     oracle(ctx, case, obs)
     return {"impl": line}
@@ -793,9 +1033,14 @@ LEVEL_TEXT = ("Lean 4 proof over a hand-written model of ArrayMap.collect and th
               "unpack(pack v) = v for every modelled format and only the variable's bytes change (py_roundtrip); program-side n-byte access and "
               "Python-side access use the same bytes (prog_store_eq_pySet, prog_load_eq_unpack), also for each member of a multi-letter format at its "
               "native-alignment offset (packM_spec, member_load_eq_unpack); CPU k's value is read from CPU k's block "
-              "(percpu_slice, percpu_block, stride_total); maps declared in base classes are initialised (ebpf_init_full_proved). The behaviour "
+              "(percpu_slice, percpu_block, stride_total); maps declared in base classes are initialised (ebpf_init_full_proved). Positions live in the "
+              "instances' __dict__s, which outlive a layout: whatever they held before (instances laid out earlier in other objects, in any number "
+              "of earlier creations), every variable a new object collects ends at the position of a layout from scratch and every other entry is "
+              "untouched (collectInto_get, collect_history_free, collect_frame), so in any history an object none of whose instances was listed again "
+              "later has exactly the fresh, disjoint layout (history_layout); Python-side accesses never touch a __dict__ (pySet_dicts). The behaviour "
               "before commit 6422374 is refuted on its witnesses (collect_disjoint_old_refuted, ebpf_init_old_refuted). Tie: exact correspondence "
-              "of the real code with the model on generated declaration sets, incl. really generated programs run in the interpreter.")
+              "of the real code with the model on generated declaration sets, incl. really generated programs run in the interpreter, and on histories "
+              "of several objects created in one process from shared classes and shared subprogram instances (model: World).")
 LEVEL_NOTE = ("trusted: Lean kernel + standard axioms; hand model validated (not verified) by differential runs; interpreter; Python struct; "
               "emulated kernel for per-CPU lookups; program side only at byte level; variable names are distinct across the maps of one program")
 TECHNIQUE = "Lean 4 induction over the sorted collection + byte-codec lemmas; refutation by decide; differential correspondence"
